@@ -43,6 +43,11 @@ def _one(pid, v, base):
     try:
         subprocess.run(["rsync", "-a", "--exclude", ".git", "--exclude", "*.o", "--exclude", "*.lo", "--exclude", ".libs",
                         "--exclude", "/tests", "--exclude", "/doc", compdb.REPO.rstrip("/") + "/", copy + "/"], check=True)
+        # a repaired defect whose code was touched again by a later repair: the later ones are reversed first
+        req = v["patch"][:-len(".diff")] + ".requires"
+        if v["reverse"] and os.path.exists(req):
+            for c in open(req).read().split():
+                subprocess.run(["patch", "-p1", "-s", "-f", "-R", "-d", copy, "-i", os.path.join(os.path.dirname(v["patch"]), c + ".diff")], capture_output=True, text=True)
         cmd = ["patch", "-p1", "-s", "-f", "-d", copy, "-i", v["patch"]] + (["-R"] if v["reverse"] else [])
         r = subprocess.run(cmd, capture_output=True, text=True)
         if r.returncode != 0:
